@@ -33,6 +33,7 @@ def run(ctx):
              floor=6, floor_what='2 stream calls, 2 None-skips, None-return guard, 2 missing-file arms')
     ctx.rule('R17.3', 'git decides the file set: loop iterates <tree|index>.diff(other, paths); paths prefixed once',
              floor=3, floor_what='2 diff calls + 1 prefixing')
+    ctx.rule('R17.5', 'repository discovery returns the sub-directory components outermost first (prefixing of path filters depends on it)', floor=1)
     ctx.rule('R17.4', 'ref/path disambiguation is total: resolve_diff_args returns a triple on every path; is_gitref conjuncts',
              floor=4)
 
@@ -248,6 +249,37 @@ def run(ctx):
         why = 'sub-directory prefix applied %d times' % len(pref)
     ctx.inst('R17.3', cfid, '; '.join(repo.norm(a) for a in pref) or '<no prefixing>', ok, why, pref[0] if pref else cn)
 
+    # ---------------------------------------------------------------- R17.5 sub-directory components outermost first
+    gr = repo.func(GF + ':get_repo')
+    splits = [n for n in walk_no_nested(gr) if isinstance(n, ast.Assign) and isinstance(n.value, ast.Call) and dotted(n.value.func) == 'os.path.split'
+              and isinstance(n.targets[0], ast.Tuple) and len(n.targets[0].elts) == 2]
+    if len(splits) != 1:
+        raise AnalysisError('get_repo: os.path.split walk not found')
+    comp = splits[0].targets[0].elts[1].id
+    acc = None
+    how = None
+    for n in walk_no_nested(gr):
+        if isinstance(n, ast.Call) and isinstance(n.func, ast.Attribute) and n.args and any(isinstance(a, ast.Name) and a.id == comp for a in n.args):
+            if n.func.attr == 'appendleft' or (n.func.attr == 'insert' and const_val_(n.args[0]) == 0):
+                acc, how = dotted(n.func.value), 'prepend'
+            elif n.func.attr == 'append':
+                acc, how = dotted(n.func.value), 'append'
+        if isinstance(n, ast.Assign) and isinstance(n.value, ast.BinOp) and isinstance(n.value.op, ast.Add):
+            l, r = n.value.left, n.value.right
+            if comp in names_in(l) and dotted(r) == dotted(n.targets[0]):
+                acc, how = dotted(n.targets[0]), 'prepend'
+            elif comp in names_in(r) and dotted(l) == dotted(n.targets[0]):
+                acc, how = dotted(n.targets[0]), 'append'
+    rets = [n for n in walk_no_nested(gr) if isinstance(n, ast.Return) and n.value is not None]
+    reversed_on_return = any(acc and any((isinstance(x, ast.Call) and dotted(x.func) == 'reversed' and acc in names_in(x)) or
+                                         (isinstance(x, ast.Subscript) and isinstance(x.slice, ast.Slice) and acc in names_in(x.value) and x.slice.step is not None)
+                                         for x in ast.walk(r)) for r in rets)
+    ok = how == 'prepend' and not reversed_on_return or how == 'append' and reversed_on_return
+    ctx.inst('R17.5', GF + ':get_repo', 'components split off while walking up are %s to %s%s' % (how, acc, ' and reversed on return' if reversed_on_return else ''), ok,
+             'the directory list is outermost-first, as the path prefix built from it requires' if ok else
+             'the directories between the repository root and the start directory come back innermost-first: path filters from a directory nested two or more levels deep get a wrong prefix',
+             splits[0])
+
     # ---------------------------------------------------------------- R17.4
     ra = repo.func('nbdime.args:resolve_diff_args')
     rg = CFG(ra)
@@ -280,6 +312,10 @@ def run(ctx):
         ok = any(pred(e) for e in conj)
         ctx.inst('R17.4', GF + ':is_gitref', 'conjunct: ' + what, ok,
                  'present' if ok else 'conjunct missing: a file name / the null file could be taken for a git ref', rets[0])
+
+
+def const_val_(n):
+    return n.value if isinstance(n, ast.Constant) else None
 
 
 def _all_stmts(body):
